@@ -12,10 +12,17 @@
                routing by list search (C13), mediation by the boolean session clause of CorrProxy (C01),
                identity headers / cookie (C03), signature verdicts (C12), response hardening by the C18
                monitor clauses, 421 for unrouted hosts, minted sessions stamped with Host and provider.
-   Known-finding attribution (only when the model predicts the observation):
-     31 = C03-K3 / C12-K1  a Connection token names an identity / covered / signature header
-     32 = C12-K2           the Content-Length header at signing time is not what the transport writes
-     33 = C18-K3           a 1xx response of the backend on a flush_interval upstream
+   Each composite clause is applied under the guard its theorem is proved under, and ONLY there:
+     signature verdicts (INT_signature_verifies)      no Connection token names a covered / signature header and
+                                                      the Content-Length header at signing time is the transport's;
+     identity headers at the backend                  each is the asserted value OR NOTHING when the Connection header
+       (INT_backend_reached_only_if)                  names it hop-by-hop — the theorem's own statement, no guard;
+     response hardening (INT_every_response_hardened) no 1xx from the backend on a flush_interval upstream.
+   Outside a guard a case is judged for model = implementation agreement only (code 0 / 1). The three defects behind
+   the guards are findings of C03 / C12 / C18 (C03-K3, C12-K1, C12-K2, C18-K3) and are reported by those properties'
+   checks; they are NOT violations of C01 and nothing is attributed here (judge never returns 100+k).
+   The mediation clauses (which backend, whitelisted or a session in order under the routed upstream's policy and
+   provider, identity never client-chosen, no session cookie, 421, bound sessions) are unguarded.
    No proofs in this file. *)
 From V Require Export Base CorrBase Validators ProxyAll.
 From V Require ProxyCore Hostmux ReqHeaders Signer RespHeaders Callback Gen_Signer Gen_Headers CorrProxy Corr_C18.
@@ -172,6 +179,21 @@ Definition mismatch (cs : case) : bool :=
 (* ------------------------------------------------------------------------------------------ *)
 (* the composite property on the observation *)
 
+(* ---- where the guarded clauses apply (read off the request as it is when it is signed) ---- *)
+Definition protected_names : list str := cov ++ covh ++ Signer.sig_headers.
+Record applic := {
+  ap_sig : bool;            (* guards 1 and 2 of INT_signature_verifies hold *)
+  ap_hop : str -> bool      (* the Connection header (or the hop-by-hop list) names this header *)
+}.
+Definition applic_of (q : request) (o : outcome) : applic :=
+  match oc_backend o with
+  | Some bv =>
+      let rs := signer_request q (bk_handler bv) in
+      {| ap_sig := Signer.conn_safe protected_names (Signer.r_headers rs) && Signer.cl_canonical rs;
+         ap_hop := fun k => mem_str k (Signer.hop_keys (Signer.r_headers rs)) |}
+  | None => {| ap_sig := true; ap_hop := fun _ => false |}
+  end.
+
 Section Monitor.
 Variable re_match : str -> str -> bool.
 Variable re_replace : str -> str -> str -> str.
@@ -223,7 +245,8 @@ Definition identity_expected (wl : bool) (now : Z) (allowed : list str) (present
 Definition injected (u : iupstream) (k : str) : list str :=
   match ReqHeaders.last_injected k (up_inject u) with Some v => [v] | None => [] end.
 
-Definition backend_ok (d : deployment) (u : iupstream) (q : request) (a : answers) (now : Z) (ob : obs) (b : obs_backend) : bool :=
+Definition backend_ok (ap : applic) (d : deployment) (u : iupstream) (q : request) (a : answers) (now : Z) (ob : obs) (b : obs_backend) : bool :=
+  let got (k : str) (want : list str) := strs_eqb (Signer.hvals k (ob_headers b)) (if ap_hop ap k then [] else want) in
   let host := rq_host q in
   let t := exp_target host u in
   let presented := match ob_presented ob with Some v => opens v | None => None end in
@@ -238,20 +261,21 @@ Definition backend_ok (d : deployment) (u : iupstream) (q : request) (a : answer
   str_eqb (ob_host b) (if Hostmux.u_preserve (up_hm u) then Hostmux.preserved_host host t else t) &&
   (* C01: whitelisted (Proxy route only), or a session in order under THAT upstream's policy and provider *)
   negb (mem_str (rq_path q) fixed_paths) && ((wl && negb fav) || sess_ok) &&
-  (* C03: identity headers are that session's; client-supplied ones are gone; no session cookie *)
+  (* C03: each identity header is that session's — or absent when the Connection header names it hop-by-hop —;
+     client-supplied ones are gone; no session cookie *)
   match identity_expected wl now (p_groups (Hostmux.u_policy (up_hm u))) presented (an_auth a) ob with
   | None => nilb (Signer.hvals Signer.x_forwarded_user h) && nilb (Signer.hvals Signer.x_forwarded_email h) &&
             nilb (Signer.hvals Signer.x_forwarded_groups h) && nilb (Signer.hvals Signer.x_forwarded_access_token h)
   | Some s =>
-      strs_eqb (Signer.hvals Signer.x_forwarded_user h) [ReqHeaders.s_user s] &&
-      strs_eqb (Signer.hvals Signer.x_forwarded_email h) [ReqHeaders.s_email s] &&
-      strs_eqb (Signer.hvals Signer.x_forwarded_groups h) [join [44] (ReqHeaders.s_groups s)] &&
-      strs_eqb (Signer.hvals Signer.x_forwarded_access_token h) (injected u ReqHeaders.k_xfat)
+      got Signer.x_forwarded_user [ReqHeaders.s_user s] &&
+      got Signer.x_forwarded_email [ReqHeaders.s_email s] &&
+      got Signer.x_forwarded_groups [join [44] (ReqHeaders.s_groups s)] &&
+      got Signer.x_forwarded_access_token (injected u ReqHeaders.k_xfat)
   end &&
   forallb (fun nv => negb (str_eqb (fst nv) (dp_cookie_name d))) (ob_cookies b) &&
-  (* C12: the signatures verify over what was received *)
-  (negb (rsa_on d u) || (option_eqb bool_eqb (ob_rsa b) (Some true) && ob_kid b)) &&
-  (negb (hmac_on u) || N.eqb (ob_hmac b) 3).
+  (* C12, under its two guards: the signatures verify over what was received *)
+  (negb (ap_sig ap) || negb (rsa_on d u) || (option_eqb bool_eqb (ob_rsa b) (Some true) && ob_kid b)) &&
+  (negb (ap_sig ap) || negb (hmac_on u) || N.eqb (ob_hmac b) 3).
 
 (* a session the proxy hands out is bound to this Host and to the routed upstream's provider *)
 Definition minted_ok (d : deployment) (u : iupstream) (q : request) (ob : obs) : bool :=
@@ -260,15 +284,19 @@ Definition minted_ok (d : deployment) (u : iupstream) (q : request) (ob : obs) :
   | _ => true
   end.
 
-Definition holds (d : deployment) (q : request) (a : answers) (now : Z) (ob : obs) : bool :=
+(* C18's guard: a flush_interval upstream whose backend sends a 1xx response is outside INT_every_response_hardened *)
+Definition hardening_applies (u : iupstream) (a : answers) : bool :=
+  up_replace u || Nat.eqb (RespHeaders.u_n1xx (an_backend a)) 0.
+
+Definition holds (ap : applic) (d : deployment) (q : request) (a : answers) (now : Z) (ob : obs) : bool :=
   if str_eqb (rq_path q) Hostmux.ping_path then
     nilb (ob_seen ob) && nilb (ob_set ob) && (negb (ob_responded ob) || N.eqb (ob_status ob) 200)
   else
     match exp_route (dp_ups d) (rq_host q) with
     | None => nilb (ob_seen ob) && nilb (ob_set ob) && (negb (ob_responded ob) || N.eqb (ob_status ob) 421)
     | Some u =>
-        (Nat.leb (length (ob_seen ob)) 1) && forallb (backend_ok d u q a now ob) (ob_seen ob) &&
-        (negb (ob_responded ob) ||
+        (Nat.leb (length (ob_seen ob)) 1) && forallb (backend_ok ap d u q a now ob) (ob_seen ob) &&
+        (negb (ob_responded ob) || negb (hardening_applies u a) ||
          (Corr_C18.three_ok (rs_cfg d u) (ob_status ob) (ob_hdr ob) && Corr_C18.hsts_ok (rs_cfg d u) (ob_hdr ob) &&
           Corr_C18.cookies_ok (rs_cfg d u) (rs_request q) (ob_set ob))) &&
         (negb (redirected d q) || (nilb (ob_seen ob) && (negb (ob_responded ob) || N.eqb (ob_status ob) 301))) &&
@@ -278,27 +306,15 @@ Definition holds (d : deployment) (q : request) (a : answers) (now : Z) (ob : ob
 End Monitor.
 
 (* ------------------------------------------------------------------------------------------ *)
-(* known-finding signatures, on the inputs *)
-Definition protected_names : list str := Signer.documented_covered ++ Signer.sig_headers.
-
-Definition known (cs : case) : N :=
-  let d := cs_d cs in let q := cs_q cs in let a := cs_a cs in
-  let o := serve (tab_match (cs_match cs)) (tab_replace (cs_replace cs)) (CorrProxy.lower_tab (cs_lower cs))
-                 (tab_opens (cs_opens cs)) d q a (cs_now cs) in
-  match oc_backend o, oc_upstream o with
-  | Some bv, Some u =>
-      let rs := signer_request q (bk_handler bv) in
-      if negb (up_replace u) && negb (Nat.eqb (RespHeaders.u_n1xx (an_backend a)) 0) then 33
-      else if negb (Signer.conn_safe protected_names (Signer.r_headers rs)) then 31
-      else if negb (Signer.cl_canonical rs) then 32
-      else 0
-  | _, _ => 0
-  end.
+(* the judgement: no attribution to known findings — outside a guard only agreement is judged *)
+Definition model_of (cs : case) : outcome :=
+  serve (tab_match (cs_match cs)) (tab_replace (cs_replace cs)) (CorrProxy.lower_tab (cs_lower cs))
+        (tab_opens (cs_opens cs)) (cs_d cs) (cs_q cs) (cs_a cs) (cs_now cs).
 
 Definition judge (cs : case) : N :=
   let h := holds (tab_match (cs_match cs)) (tab_replace (cs_replace cs)) (CorrProxy.lower_tab (cs_lower cs))
-                 (tab_opens (cs_opens cs)) (cs_d cs) (cs_q cs) (cs_a cs) (cs_now cs) (cs_obs cs) in
-  code (mismatch cs) h (known cs).
+                 (tab_opens (cs_opens cs)) (applic_of (cs_q cs) (model_of cs)) (cs_d cs) (cs_q cs) (cs_a cs) (cs_now cs) (cs_obs cs) in
+  code (mismatch cs) h 0.
 
 (* classes: 0 = /ping, 1 = unrouted; otherwise 2 + route (7) x backend reached (2) x session presented (3)
    x response class; used only for the evidence histogram *)
@@ -319,6 +335,8 @@ Definition classify (cs : case) : N :=
              + 252 * (if rsa_on d u then 1 else 0)
              + 504 * (if up_replace u then 1 else 0)
              + 1008 * (if ob_status ob <? 300 then 0 else if ob_status ob <? 400 then 1 else if ob_status ob <? 500 then 2 else 3)
+             + 4032 * (if ap_sig (applic_of q (model_of cs)) then 0 else 1)
+             + 8064 * (if hardening_applies u (cs_a cs) then 0 else 1)
        end.
 
 (* ------------------------------------------------------------------------------------------ *)
@@ -380,9 +398,6 @@ Definition mk_case (d : deployment) (q : request) (a : answers) (now : Z) (m : l
 
 (* ------------------------------------------------------------------------------------------ *)
 (* diagnostics (used when a replay is inspected by hand; not part of the judgement) *)
-Definition model_of (cs : case) : outcome :=
-  serve (tab_match (cs_match cs)) (tab_replace (cs_replace cs)) (CorrProxy.lower_tab (cs_lower cs))
-        (tab_opens (cs_opens cs)) (cs_d cs) (cs_q cs) (cs_a cs) (cs_now cs).
 Definition diag (cs : case) : list (N * bool) :=
   let d := cs_d cs in let q := cs_q cs in let a := cs_a cs in let ob := cs_obs cs in
   let o := model_of cs in
